@@ -212,6 +212,16 @@ func (r *Relay) handleReserve(s network.Stream) pbv2.Status {
 		r.handleError(s, pbv2.Status_PERMISSION_DENIED)
 		return pbv2.Status_PERMISSION_DENIED
 	}
+	// The peer may have disconnected while the request was being handled; disconnected()
+	// has then already run and nothing would remove a reservation recorded now.
+	if r.host.Network().Connectedness(p) != network.Connected {
+		r.mx.Unlock()
+		log.Debug("refusing relay reservation",
+			"remote_peer", p,
+			"reason", "peer disconnected")
+		r.handleError(s, pbv2.Status_CONNECTION_FAILED)
+		return pbv2.Status_CONNECTION_FAILED
+	}
 	now := time.Now()
 	expire := now.Add(r.rc.ReservationTTL)
 
